@@ -103,17 +103,17 @@ func runC14(r *Run) {
 				gotBits = append(gotBits, args[1].(types.FriConfig).ProofOfWorkBits)
 			})}})
 		if w.Panic != "" || w.Err != nil {
-			r.Infra("walk %s failed: %s %v", in.Name, w.Panic, w.Err)
+			walkFailed(r, in, "verifier", w)
 			continue
 		}
 		if len(got) != 1 {
-			r.Infra("%s: proof-of-work check executed %d times, expected once", in.Name, len(got))
+			r.addViolationStructural("proof-of-work check count", fmt.Sprintf("%s: the proof-of-work condition is imposed %d times in the verifier, plonky2's verifier imposes it exactly once", in.Name, len(got)))
 			continue
 		}
 		T := got[0]
 		b := in.Common.FriParams.Config.ProofOfWorkBits
 		if gotBits[0] != b {
-			r.Infra("%s: proof-of-work check uses difficulty %d, configuration says %d", in.Name, gotBits[0], b)
+			r.addViolationStructural("proof-of-work difficulty", fmt.Sprintf("%s: the proof-of-work check uses difficulty %d, the circuit description says %d", in.Name, gotBits[0], b))
 		}
 		var pw *sym.Term
 		for _, l := range w.Leaves {
